@@ -122,7 +122,16 @@ func genC12(c *lp.Ctx) {
 		if block {
 			op = "idx.rget"
 		}
-		for _, q := range append(gen.Queries(c.Rng, ks.Keys, c.Pick(60, 250)), gen.HostileQueries(c.Rng, ks.Keys)...) {
+		// one instance, one long history: present and absent strings interleaved at random, then every
+		// indexed key once more (an index that remembers earlier lookups shows only in such a history)
+		qs := append(gen.Queries(c.Rng, ks.Keys, c.Pick(60, 250)), gen.HostileQueries(c.Rng, ks.Keys)...)
+		c.Rng.Shuffle(len(qs), func(i, j int) { qs[i], qs[j] = qs[j], qs[i] })
+		for i, k := range ks.Keys {
+			if len(ks.Keys) <= 300 || i%(len(ks.Keys)/300+1) == 0 {
+				qs = append(qs, k)
+			}
+		}
+		for _, q := range qs {
 			want := "nf"
 			i := sort.SearchStrings(ks.Keys, q)
 			if i < len(ks.Keys) && ks.Keys[i] == q {
